@@ -199,7 +199,87 @@ PROPS = {
                                   note='modify_order with the unconditional grid clause (expected refutation, known finding)')], 'design': '§5 C12'},
     'C13': {'legs': [V('book'), V('market'), V('env'), V('menv')], 'design': '§5 C13'},
     'C14': {'legs': [V('market'), V('menv')], 'design': '§5 C14'},
+    'C18': {'legs': [V('py'), V('book')], 'design': '§5 C18'},
+    'C20': {'legs': [{'engine': 'derive'}], 'design': '§5 C20'},
+    'C19': {'legs': [V('py')], 'design': '§5 C19'},
 }
+
+
+class ShimUnit:
+    def __init__(self, label, rs, meta):
+        self.label, self.rs, self.meta = label, rs, meta
+
+
+def decide_derive_leg(pid, leg, seed, log):
+    """C20: real macro expansion of a finite family of shapes, each generated `update` verified against the declared-order composition."""
+    import derive_check as dc
+    work = os.path.join(BUILD, 'derive_shapes')
+    expanded, stderr, cmd = dc.expand(REPO, work)
+    if 'impl bourse_de::agents' not in expanded:
+        raise Undecided('the derive macros did not expand (crate does not build?): %s' % stderr[-400:])
+    impls = dc.cut_impls(expanded)
+    text, obligations, problems = dc.verus_unit(impls)
+    rs = os.path.join(BUILD, 'derive.rs')
+    with open(rs, 'w') as f:
+        f.write(text)
+    sha = hashlib.sha256(text.encode()).hexdigest()
+    lines = text.split('\n')
+    meta = {'unit': 'derive', 'sha256': sha, 'sources': ['crates/macros/src/lib.rs (through rustc -Zunpretty=expanded)'], 'dropped': [], 'rules': [], 'warnings': [],
+            'functions': [], 'origin': [{'kind': 'gen'}] * len(lines), 'module': None}
+    # function ranges for attribution
+    cur = None
+    for k, l in enumerate(lines):
+        m = re.match(r'impl<.*> (\w+)<', l)
+        if m:
+            cur = {'name': m.group(1) + '::update', 'gen_start': k + 1, 'gen_end': len(lines), 'tags': ['C20']}
+            meta['functions'].append(cur)
+        if l.startswith('}') and cur is not None and k + 1 > cur['gen_start'] and lines[k - 1].strip() == '}':
+            cur['gen_end'] = k + 1
+            cur = None
+    u = ShimUnit('derive', rs, meta)
+    key = hashlib.sha256((sha + verus_version()).encode()).hexdigest()
+    cp = os.path.join(CACHE, key + '.json')
+    if os.path.exists(cp):
+        res = json.load(open(cp)); res['cache_hit'] = True
+    else:
+        run = vrun.run_verus(rs, seed=0, rlimit=RLIMIT, threads=16)
+        res = vrun.parse(run, meta)
+        res['wall_s'], res['cmd'], res['cache_hit'] = run['wall_s'], run['cmd'], False
+        if not res.get('frontend_error'):
+            os.makedirs(CACHE, exist_ok=True)
+            json.dump(res, open(cp, 'w'))
+    refuted = []
+    by_fn = {o['fn']: o for o in obligations if o['kind'] == 'ensures'}
+    if res.get('frontend_error'):
+        # a generated body that does not even type-check against the members' update signature (wrong arity, unknown field) is a refutation of that shape
+        raise Undecided('verus front end on the derive unit: %s' % res['frontend_error'])
+    for d in res['diagnostics']:
+        if d['kind'] != 'verification':
+            raise Undecided('derive unit: %s' % d['message'])
+        prim = [x for x in d['spans'] if x['primary']] or d['spans']
+        fn = ob.fn_at(meta, prim[0]['gen_line'])
+        o = by_fn.get(fn)
+        if o is None:
+            raise Undecided('derive unit: diagnostic outside the generated impls: %s' % d['message'])
+        detail = {'message': d['message'], 'where': [{'label': x['label'], 'origin': 'derive.rs:%d' % x['gen_line'], 'text': x['text'][:200], 'primary': x['primary']} for x in d['spans']], 'fn': fn}
+        refuted.append({'obligation': o['id'], 'full': o['id'], 'fn': fn, 'detail': detail})
+    # shapes whose impl is missing / duplicated, and signatures that differ from the trait's
+    for pr in problems:
+        nm = pr.split(':')[0]
+        oid = 'derive/%s::update/ensures[composition]' % nm
+        obligations.append({'id': oid, 'fn': nm + '::update', 'kind': 'ensures', 'tags': ['C20.composition'], 'explicit': True, 'text': pr})
+        refuted.append({'obligation': oid, 'full': oid, 'fn': nm + '::update', 'detail': {'message': pr, 'where': [], 'fn': nm}})
+    for sh in dc.SHAPES:
+        got = impls.get(sh['name'], [])
+        if len(got) == 1 and dc.norm(got[0][1]) != dc.norm(dc.EXPECT_SIG[sh['macro']]):
+            oid = 'derive/%s::update/signature' % sh['name']
+            refuted.append({'obligation': oid, 'full': oid, 'fn': sh['name'] + '::update',
+                            'detail': {'message': 'generated signature `%s` differs from the trait method `%s`' % (got[0][1], dc.EXPECT_SIG[sh['macro']]), 'where': [], 'fn': sh['name']}})
+    res['cmd'] = cmd + ' ; ' + (res.get('cmd') or '')
+    return {'unit': u, 'res': res, 'mine': obligations, 'pre': [], 'refuted': refuted, 'fn_stats': {k: {'ms': v['ms'], 'rlimit': v['rlimit']} for k, v in res['functions'].items()},
+            'assumptions': ['derive.rs: Env / MarketEnv / RngCore are opaque stand-ins; members have an uninterpreted contract (any behaviour)',
+                            'syn / quote / proc_macro internals are not verified; the shapes are the finite family of tools/derive_check.py (%d shapes, 1..8 fields, both macros)' % len(dc.SHAPES)],
+            'canary': {'skipped': 'the generated functions have no preconditions', 'vacuous': []}}
 
 
 def load_known():
@@ -347,6 +427,9 @@ def main():
         for leg in cfg['legs']:
             if leg['engine'] == 'replay':
                 bounded.append(run_bounded(pid, leg, seed))
+                continue
+            if leg['engine'] == 'derive':
+                legs.append(decide_derive_leg(pid, leg, seed, log))
                 continue
             if leg['engine'] == 'verus':
                 info = decide_verus_leg(pid, leg, a.tier, seed, log)
